@@ -951,3 +951,24 @@ Theorem reply_parses_built m cfg p ops reqid sessid :
     server_body m (body_of cfg b) = Some body /\
     parse_response body = expected_response m (b_entries b).
 Proof. intros b. apply reply_parses. Qed.
+
+(* ---------------- definitions, unfolded for the property file ---------------- *)
+Lemma expected_update_check_cases c :
+  expected_update_check c =
+  match rm_response c with
+  | NoUpdate => Some {| uc_status := SNoUpdate; uc_info := None; uc_urls := None; uc_manifest := None; uc_extra := [] |}
+  | Update => Some {| uc_status := SOk; uc_info := None; uc_urls := Some [rm_codebase c];
+                      uc_manifest := Some (expected_manifest (rm_package c)); uc_extra := [] |}
+  | UrgentUpdate => Some {| uc_status := SOk; uc_info := None; uc_urls := Some [rm_codebase c];
+                            uc_manifest := Some (expected_manifest (rm_package c));
+                            uc_extra := [(s2b "_urgent_update", JBool true)] |}
+  | InvalidURL => Some {| uc_status := SOk; uc_info := None; uc_urls := Some [s2b "http://integration.test.fuchsia.com/"];
+                          uc_manifest := Some (expected_manifest (rm_package c)); uc_extra := [] |}
+  | InvalidResponse => None
+  end.
+Proof. reflexivity. Qed.
+
+Lemma find_key_cases ks id :
+  find_key ks id =
+  if fst (keys_latest ks) =? id then Some (snd (keys_latest ks)) else find_in id (keys_historical ks).
+Proof. destruct ks as [[i k] h]. reflexivity. Qed.
